@@ -20,7 +20,8 @@ def load():
 
 
 def matches(finding, prop, sig):
-    if finding["property"] != prop:
+    props = finding["property"]
+    if prop not in (props if isinstance(props, list) else [props]):
         return False
     for k, v in finding["match"].items():
         if k.startswith("has_"):
